@@ -20,17 +20,29 @@ Proof.
   destruct H1 as [A1 B1]. destruct H2 as [A2 B2]. specialize (A1 _ B2). specialize (A2 _ B1). lia.
 Qed.
 
+Lemma is_min_unique_equiv : forall v1 v2 l1 l2, (forall x, In x l1 <-> In x l2) ->
+  is_min v1 l1 = true -> is_min v2 l2 = true -> v1 = v2.
+Proof.
+  intros v1 v2 l1 l2 E H1 H2. apply is_min_elim in H1. apply is_min_elim in H2.
+  destruct H1 as [A1 B1]. destruct H2 as [A2 B2].
+  specialize (A1 v2 (proj2 (E v2) B2)). specialize (A2 v1 (proj1 (E v1) B1)). lia.
+Qed.
+
+Lemma equiv_nil : forall (A : Type) (l1 l2 : list A), (forall x, In x l1 <-> In x l2) -> l1 = [] -> l2 = [].
+Proof. intros A l1 l2 E ->. destruct l2 as [|y t]; [reflexivity|]. exfalso. apply (proj2 (E y)). left; reflexivity. Qed.
+
 (** * each equation determines its value from the values it reads *)
 
 Lemma eq_negamax_det : forall g1 g2 n,
-  info g1 n = info g2 n -> children g1 n = children g2 n ->
+  ni_move (info g1 n) = ni_move (info g2 n) -> ni_score (info g1 n) = ni_score (info g2 n) ->
+  children g1 n = children g2 n ->
   (forall mc, In mc (children g1 n) -> s_nm (score_of g1 (snd mc)) = s_nm (score_of g2 (snd mc))) ->
   eq_negamax g1 n = true -> eq_negamax g2 n = true ->
   s_nm (score_of g1 n) = s_nm (score_of g2 n).
 Proof.
-  intros g1 g2 n Hi Hc Hnm E1 E2.
+  intros g1 g2 n Hm Hs Hc Hnm E1 E2.
   assert (Own : own_score g1 n = own_score g2 n).
-  { unfold own_score. rewrite <- Hi, <- Hc.
+  { unfold own_score. rewrite <- Hm, <- Hs, <- Hc.
     destruct (assoc (ni_move (info g1 n)) (children g1 n)) as [c|] eqn:A; [|reflexivity].
     apply assoc_in in A. specialize (Hnm _ A). cbn [snd] in Hnm. rewrite Hnm. reflexivity. }
   assert (Cand : nm_candidates g1 n = nm_candidates g2 n).
@@ -42,19 +54,20 @@ Proof.
 Qed.
 
 Lemma eq_cost_det : forall bd g1 g2 n w,
-  info g1 n = info g2 n -> children g1 n = children g2 n -> bk_pending g1 = bk_pending g2 ->
+  ni_move (info g1 n) = ni_move (info g2 n) -> ni_score (info g1 n) = ni_score (info g2 n) ->
+  children g1 n = children g2 n -> mem n (bk_pending g1) = mem n (bk_pending g2) ->
   depth g1 n = depth g2 n -> s_nm (score_of g1 n) = s_nm (score_of g2 n) ->
   (forall mc, In mc (children g1 n) -> s_nm (score_of g1 (snd mc)) = s_nm (score_of g2 (snd mc)) /\
                                        node_cost g1 (snd mc) w = node_cost g2 (snd mc) w) ->
   eq_cost bd g1 n w = true -> eq_cost bd g2 n w = true ->
   node_cost g1 n w = node_cost g2 n w.
 Proof.
-  intros bd g1 g2 n w Hi Hc Hp Hd Hn Hch E1 E2.
+  intros bd g1 g2 n w Hm Hs Hc Hp Hd Hn Hch E1 E2.
   assert (EW : err_weight bd g1 n w = err_weight bd g2 n w) by (unfold err_weight, white_to_move; rewrite Hd; reflexivity).
   assert (Own : own_choice bd g1 n w = own_choice bd g2 n w).
-  { unfold own_choice. rewrite <- Hi, <- Hp, <- Hn, <- EW.
+  { unfold own_choice. rewrite <- Hs, <- Hp, <- Hn, <- EW.
     replace (best_move_is_child g2 n) with (best_move_is_child g1 n)
-      by (unfold best_move_is_child; rewrite Hc, Hi; reflexivity).
+      by (unfold best_move_is_child; rewrite Hc, Hm; reflexivity).
     reflexivity. }
   assert (Ch : choices bd g1 n w = choices bd g2 n w).
   { unfold choices. rewrite Own, <- Hc. f_equal. apply map_ext_in. intros mc H.
@@ -68,7 +81,7 @@ Proof.
 Qed.
 
 Lemma eq_patherr_det : forall g1 g2 n,
-  bk_root g1 = bk_root g2 -> parents g1 n = parents g2 n -> depth g1 n = depth g2 n ->
+  bk_root g1 = bk_root g2 -> (forall x, In x (parents g1 n) <-> In x (parents g2 n)) -> depth g1 n = depth g2 n ->
   s_nm (score_of g1 n) = s_nm (score_of g2 n) ->
   (forall mp, In mp (parents g1 n) ->
      s_nm (score_of g1 (snd mp)) = s_nm (score_of g2 (snd mp)) /\
@@ -78,34 +91,47 @@ Lemma eq_patherr_det : forall g1 g2 n,
   s_pew (score_of g1 n) = s_pew (score_of g2 n) /\ s_peb (score_of g1 n) = s_peb (score_of g2 n).
 Proof.
   intros g1 g2 n Hr Hp Hd Hn Hpar E1 E2.
-  assert (Cand : pe_candidates g1 n = pe_candidates g2 n).
-  { unfold pe_candidates. rewrite <- Hp. apply flat_map_ext_in. intros mp H.
-    destruct (Hpar mp H) as [A [B C]]. cbn zeta. rewrite <- A, <- B, <- C, <- Hn, <- Hd. reflexivity. }
-  unfold eq_patherr in E1, E2. rewrite <- Hr, <- Cand in E2.
+  assert (Cand : forall c, In c (pe_candidates g1 n) <-> In c (pe_candidates g2 n)).
+  { intro c. unfold pe_candidates. rewrite !in_flat_map. split; intros [mp [Hin Hc]].
+    - exists mp. split; [apply Hp; exact Hin|]. destruct (Hpar mp Hin) as [A [B C]].
+      cbn zeta in *. rewrite <- A, <- B, <- C, <- Hn, <- Hd. exact Hc.
+    - apply Hp in Hin. exists mp. split; [exact Hin|]. destruct (Hpar mp Hin) as [A [B C]].
+      cbn zeta in *. rewrite A, B, C, Hn, Hd. exact Hc. }
+  unfold eq_patherr in E1, E2. rewrite <- Hr in E2.
   destruct (N.eqb n (bk_root g1)).
   - apply andb_prop in E1. apply andb_prop in E2. destruct E1 as [A1 B1]. destruct E2 as [A2 B2].
     apply Z.eqb_eq in A1, B1, A2, B2. split; congruence.
-  - destruct (pe_candidates g1 n).
-    + apply andb_prop in E1. apply andb_prop in E2. destruct E1 as [A1 B1]. destruct E2 as [A2 B2].
+  - destruct (pe_candidates g1 n) as [|c1 t1] eqn:P1.
+    + rewrite (equiv_nil _ _ _ Cand eq_refl) in E2.
+      apply andb_prop in E1. apply andb_prop in E2. destruct E1 as [A1 B1]. destruct E2 as [A2 B2].
       apply Z.eqb_eq in A1, B1, A2, B2. split; congruence.
-    + apply andb_prop in E1. apply andb_prop in E2. destruct E1 as [A1 B1]. destruct E2 as [A2 B2].
-      split; eapply is_min_unique; eauto.
+    + destruct (pe_candidates g2 n) as [|c2 t2] eqn:P2.
+      { exfalso. apply (proj1 (Cand c1)). left; reflexivity. }
+      apply andb_prop in E1. apply andb_prop in E2. destruct E1 as [A1 B1]. destruct E2 as [A2 B2].
+      split.
+      * eapply (is_min_unique_equiv _ _ (map fst (c1 :: t1)) (map fst (c2 :: t2))); eauto.
+        intro x. rewrite !in_map_iff. split; intros [c [Ec Hc]]; exists c; (split; [exact Ec|apply Cand; exact Hc]).
+      * eapply (is_min_unique_equiv _ _ (map snd (c1 :: t1)) (map snd (c2 :: t2))); eauto.
+        intro x. rewrite !in_map_iff. split; intros [c [Ec Hc]]; exists c; (split; [exact Ec|apply Cand; exact Hc]).
 Qed.
 
 Lemma eq_depth_det : forall g1 g2 n,
-  bk_root g1 = bk_root g2 -> parents g1 n = parents g2 n ->
+  bk_root g1 = bk_root g2 -> (forall x, In x (parents g1 n) <-> In x (parents g2 n)) ->
   (forall mp, In mp (parents g1 n) -> depth g1 (snd mp) = depth g2 (snd mp)) ->
   eq_depth g1 n = true -> eq_depth g2 n = true -> depth g1 n = depth g2 n.
 Proof.
-  intros g1 g2 n Hr Hp Hd E1 E2. unfold eq_depth in E1, E2. rewrite <- Hr, <- Hp in E2.
+  intros g1 g2 n Hr Hp Hd E1 E2. unfold eq_depth in E1, E2. rewrite <- Hr in E2.
   destruct (N.eqb n (bk_root g1)).
   - apply Z.eqb_eq in E1. apply Z.eqb_eq in E2. congruence.
   - destruct (parents g1 n) as [|mp0 t] eqn:P.
-    + apply Z.eqb_eq in E1. apply Z.eqb_eq in E2. congruence.
-    + replace (map (fun mp : N * N => depth g2 (snd mp) + 1) (mp0 :: t))
-        with (map (fun mp : N * N => depth g1 (snd mp) + 1) (mp0 :: t)) in E2
-        by (apply map_ext_in; intros mp H; rewrite Hd by exact H; reflexivity).
-      eapply is_min_unique; eauto.
+    + rewrite (equiv_nil _ _ _ Hp eq_refl) in E2. apply Z.eqb_eq in E1. apply Z.eqb_eq in E2. congruence.
+    + destruct (parents g2 n) as [|mq0 t2] eqn:P2.
+      { exfalso. apply (proj1 (Hp mp0)). left; reflexivity. }
+      eapply (is_min_unique_equiv _ _ (map (fun mp : N * N => depth g1 (snd mp) + 1) (mp0 :: t))
+                                      (map (fun mp : N * N => depth g2 (snd mp) + 1) (mq0 :: t2))); eauto.
+      intro x. rewrite !in_map_iff. split; intros [mp [Em Hm]]; exists mp.
+      * split; [rewrite <- (Hd mp Hm); exact Em|apply Hp; exact Hm].
+      * apply Hp in Hm. split; [rewrite (Hd mp Hm); exact Em|exact Hm].
 Qed.
 
 (** * what the link equations give *)
@@ -148,13 +174,16 @@ Qed.
 
 (** * uniqueness *)
 
+(** same nodes, links, search results and pending set (object addresses, node states, the order
+    of the node list and of equal-move parent entries may differ, as after a reload) *)
 Record same_static (g1 g2 : book) : Prop := mkSame {
   ss_root : bk_root g1 = bk_root g2;
-  ss_keys : bk_keys g1 = bk_keys g2;
-  ss_info : forall n, info g1 n = info g2 n;
+  ss_keys : forall n, In n (bk_keys g1) <-> In n (bk_keys g2);
+  ss_move : forall n, ni_move (info g1 n) = ni_move (info g2 n);
+  ss_score : forall n, ni_score (info g1 n) = ni_score (info g2 n);
   ss_children : forall n, children g1 n = children g2 n;
-  ss_parents : forall n, parents g1 n = parents g2 n;
-  ss_pending : bk_pending g1 = bk_pending g2
+  ss_parents : forall n x, In x (parents g1 n) <-> In x (parents g2 n);
+  ss_pending : forall n, mem n (bk_pending g1) = mem n (bk_pending g2)
 }.
 
 Section Unique.
@@ -165,7 +194,7 @@ Section Unique.
   Hypothesis H2 : all_equations bd g2.
 
   Lemma keys2 : forall n, In n (bk_keys g1) -> In n (bk_keys g2).
-  Proof. intros n H. rewrite <- (ss_keys _ _ Hss). exact H. Qed.
+  Proof. intros n H. apply (ss_keys _ _ Hss). exact H. Qed.
 
   Lemma depth_unique : forall n, In n (bk_keys g1) -> depth g1 n = depth g2 n.
   Proof.
@@ -198,11 +227,11 @@ Section Unique.
         { intros [m c] Hc. cbn [snd]. apply IH; [eapply eq_links_child; eauto|].
           destruct (Hrk n Hn) as [_ R]. specialize (R m c Hc). lia. }
         assert (NM : s_nm (score_of g1 n) = s_nm (score_of g2 n)).
-        { apply eq_negamax_det; [apply Hss|apply Hss| |exact N1|exact N2]. intros mc Hc. apply (Ch mc Hc). }
+        { apply eq_negamax_det; [apply Hss|apply Hss|apply Hss| |exact N1|exact N2]. intros mc Hc. apply (Ch mc Hc). }
         split; [exact NM|]. split.
-        + apply (eq_cost_det bd g1 g2 n true); [apply Hss|apply Hss|apply Hss|apply depth_unique; exact Hn|exact NM| |exact CW1|exact CW2].
+        + apply (eq_cost_det bd g1 g2 n true); [apply Hss|apply Hss|apply Hss|apply Hss|apply depth_unique; exact Hn|exact NM| |exact CW1|exact CW2].
           intros mc Hc. destruct (Ch mc Hc) as [A [Bw Bb]]. split; [exact A|exact Bw].
-        + apply (eq_cost_det bd g1 g2 n false); [apply Hss|apply Hss|apply Hss|apply depth_unique; exact Hn|exact NM| |exact CB1|exact CB2].
+        + apply (eq_cost_det bd g1 g2 n false); [apply Hss|apply Hss|apply Hss|apply Hss|apply depth_unique; exact Hn|exact NM| |exact CB1|exact CB2].
           intros mc Hc. destruct (Ch mc Hc) as [A [Bw Bb]]. split; [exact A|exact Bb]. }
     intros n Hn. apply (G (S (Z.to_nat (B - rk n))) n Hn). specialize (HB n Hn). lia.
   Qed.
